@@ -28,14 +28,14 @@ type Sched struct {
 
 // Task is one schedulable goroutine.
 type Task struct {
-	Name   string
-	s      *Sched
-	ops    chan func()
-	state  int // 0 idle, 1 running, 2 stopped
-	site   string
-	wake   chan struct{}
-	dyn    bool
-	OpSeq  int
+	Name  string
+	s     *Sched
+	ops   chan func()
+	state int // 0 idle, 1 running, 2 stopped
+	site  string
+	wake  chan struct{}
+	dyn   bool
+	OpSeq int
 }
 
 // NewSched creates a scheduler bound to env.
